@@ -6,6 +6,7 @@ pub struct Out {
     pub imp: BufWriter<File>,
     pub n: u64,
     dir: String,
+    cur: Option<File>,
 }
 impl Out {
     pub fn new(dir: &str) -> Self {
@@ -15,12 +16,21 @@ impl Out {
             imp: BufWriter::new(File::create(format!("{dir}/impl.txt")).unwrap()),
             n: 0,
             dir: { let _ = std::fs::remove_file(format!("{dir}/current.txt")); dir.to_string() },
+            cur: None,
         }
     }
     /// announce the case about to be run (written through at once): if the implementation then aborts, exhausts
     /// memory or never returns, the check driver finds the input here and reports it as the replay
     pub fn begin(&mut self, input: &str) {
-        let _ = std::fs::write(format!("{}/current.txt", self.dir), input);
+        // one positioned write per case into a file kept open: `<decimal length, 10 digits>\n<input>`; a longer
+        // earlier case may leave a stale tail, which the length prefix cuts off
+        use std::os::unix::fs::FileExt;
+        if self.cur.is_none() { self.cur = File::create(format!("{}/current.txt", self.dir)).ok(); }
+        if let Some(f) = &self.cur {
+            let mut buf = format!("{:010}\n", input.len()).into_bytes();
+            buf.extend_from_slice(input.as_bytes());
+            let _ = f.write_at(&buf, 0);
+        }
     }
     /// one case: the input line (sent to the model driver) and the implementation's canonical output
     pub fn case(&mut self, input: &str, output: &str) {
